@@ -28,6 +28,17 @@ type Rec struct {
 	Removed []removed `json:"removed,omitempty"`
 	Panic   string    `json:"panic,omitempty"`
 	Done    bool      `json:"done"`
+	CB      bool      `json:"-"` // the removal callback was registered when the operation ran
+}
+
+// NilVal marks a Store of the nil value.
+const NilVal = "<nil>"
+
+func valStr(v interface{}) string {
+	if v == nil {
+		return NilVal
+	}
+	return valid.ToStr(v)
 }
 
 // Outcome of one run.
@@ -42,31 +53,67 @@ type Outcome struct {
 	PlanSchedHash uint64
 }
 
+// keyOf maps a key index to the key handed to the cache. With mixed keys the alphabet contains keys of
+// different dynamic types whose printed forms collide ("1" and 1, a struct and its text), so that an
+// implementation that indexes by a rendering of the key instead of the key itself confuses them.
 func keyOf(k int) interface{} { return "k" + fmt.Sprint(k) }
 
-func keyNum(k interface{}) int {
-	s, ok := k.(string)
-	if !ok || len(s) < 2 {
-		return -1
+type structKey struct {
+	A int
+	B string
+}
+
+func mixedKey(k int) interface{} {
+	switch k % 5 {
+	case 0:
+		return fmt.Sprint(k / 5) // "0", "1", ...
+	case 1:
+		return k / 5 // 0, 1, ... (same text as the strings above)
+	case 2:
+		return structKey{k / 5, "x"}
+	case 3:
+		return fmt.Sprint(structKey{k / 5, "x"}) // the text of the struct key
 	}
-	n := 0
-	fmt.Sscan(s[1:], &n)
-	return n
+	return int64(k / 5) // same number as case 1, another type
+}
+
+func (p *Plan) key(k int) interface{} {
+	if p.MixedKeys {
+		return mixedKey(k)
+	}
+	return keyOf(k)
+}
+
+// keyIndex builds the reverse of key() for the key alphabet of the plan.
+func (p *Plan) keyIndex() map[interface{}]int {
+	n := p.NKeys
+	if n < 16 {
+		n = 16
+	}
+	m := make(map[interface{}]int, n+5)
+	for i := n + 4; i >= 0; i-- {
+		m[p.key(i)] = i
+	}
+	return m
 }
 
 // exec performs one operation against the real cache and fills rec.
-func exec(l *valid.LRUCache, rec *Rec) {
+func exec(p *Plan, l *valid.LRUCache, rec *Rec) {
 	switch rec.Op.K {
 	case OpStore:
-		l.Store(keyOf(rec.Op.Key), rec.Op.Val)
+		if rec.Op.Val == NilVal {
+			l.Store(p.key(rec.Op.Key), nil) // a nil value is a value like any other
+		} else {
+			l.Store(p.key(rec.Op.Key), rec.Op.Val)
+		}
 	case OpLoad:
-		v, ok := l.Load(keyOf(rec.Op.Key))
+		v, ok := l.Load(p.key(rec.Op.Key))
 		rec.Ok = ok
 		if ok {
-			rec.Val = valid.ToStr(v)
+			rec.Val = valStr(v)
 		}
 	case OpDelete:
-		l.Delete(keyOf(rec.Op.Key))
+		l.Delete(p.key(rec.Op.Key))
 	case OpLen:
 		rec.N = l.Len()
 	case OpDump:
@@ -81,14 +128,28 @@ func Run(p *Plan, ch simsync.Chooser) *Outcome {
 	nc := len(p.Clients)
 	recs := make([][]Rec, nc)
 	cur := make([]*Rec, nc)
-	if p.Callback {
-		cache.SetDelCallBackFn(func(k, v interface{}) {
-			id := simsync.TaskID()
-			if id < 0 || id >= nc || cur[id] == nil {
-				return
+	rev := p.keyIndex()
+	keyNum := func(k interface{}) (n int) {
+		defer func() {
+			if recover() != nil {
+				n = -1 // an unhashable value handed to the callback
 			}
-			cur[id].Removed = append(cur[id].Removed, removed{keyNum(k), valid.ToStr(v)})
-		})
+		}()
+		if i, ok := rev[k]; ok {
+			return i
+		}
+		return -1
+	}
+	cbFn := func(k, v interface{}) {
+		id := simsync.TaskID()
+		if id < 0 || id >= nc || cur[id] == nil {
+			return
+		}
+		cur[id].Removed = append(cur[id].Removed, removed{keyNum(k), valStr(v)})
+	}
+	cbOn := p.Callback && p.CallbackAt == 0
+	if cbOn {
+		cache.SetDelCallBackFn(cbFn)
 	}
 	sim := simsync.New(ch, p.Cfg)
 	// seq shape: the client owns the model and checks each step itself
@@ -102,8 +163,15 @@ func Run(p *Plan, ch simsync.Chooser) *Outcome {
 		recs[c] = make([]Rec, len(p.Clients[c]))
 		sim.Go(fmt.Sprintf("client%d", c), func() {
 			for i, op := range p.Clients[c] {
+				if p.Callback && !cbOn && i == p.CallbackAt && nc == 1 {
+					// the callback is registered only now, with entries already in the cache (single client only:
+					// SetDelCallBackFn is not among the operations C10 allows concurrently)
+					cache.SetDelCallBackFn(cbFn)
+					cbOn = true
+				}
 				rec := &recs[c][i]
 				rec.Client, rec.Op = c, op
+				rec.CB = cbOn
 				cur[c] = rec
 				before := simsync.LastAcquire()
 				rec.Invoke = simsync.Stamp()
@@ -114,7 +182,7 @@ func Run(p *Plan, ch simsync.Chooser) *Outcome {
 							panic(r)
 						}
 					}()
-					exec(cache, rec)
+					exec(p, cache, rec)
 				}()
 				rec.Return = simsync.Stamp()
 				if a := simsync.LastAcquire(); a != before {
@@ -263,7 +331,7 @@ func stepCheck(m *Model, p *Plan, rec *Rec, idx int, out *Outcome) *detsim.Viola
 	case OpDump:
 		// C09 does not speak about Dump; it must only not disturb anything
 	}
-	if p.Callback && !sameRemoved(want, rec.Removed) {
+	if rec.CB && !sameRemoved(want, rec.Removed) {
 		sub := "callback-wrong"
 		switch {
 		case len(rec.Removed) < len(want):
@@ -305,7 +373,11 @@ func dumpOf(c int, state string) string {
 	m := Decode(c, state)
 	l := valid.NewLRU(c)
 	for i := len(m.e) - 1; i >= 0; i-- {
-		l.Store(keyOf(m.e[i].k), m.e[i].v)
+		if m.e[i].v == NilVal {
+			l.Store(keyOf(m.e[i].k), nil)
+		} else {
+			l.Store(keyOf(m.e[i].k), m.e[i].v)
+		}
 	}
 	d := l.Dump()
 	if len(dumpMemo) > 200000 {
@@ -545,7 +617,7 @@ func judgeLarge(p *Plan, cache *valid.LRUCache, out *Outcome) {
 	}
 	live := 0
 	for k := 0; k < p.NKeys; k++ {
-		v, ok := cache.Load(keyOf(k))
+		v, ok := cache.Load(p.key(k))
 		if !ok {
 			if p.Callback && storesPerKey[k] == 1 {
 				// stored exactly once and gone: it must have been reported removed exactly once
@@ -558,7 +630,7 @@ func judgeLarge(p *Plan, cache *valid.LRUCache, out *Outcome) {
 			continue
 		}
 		live++
-		vs := valid.ToStr(v)
+		vs := valStr(v)
 		if kk, ok := storedKey[vs]; !ok || kk != k {
 			bad("foreign-value", "at quiescence Load(k%d)=%q was never stored under that key", k, vs)
 		}
